@@ -716,6 +716,11 @@ pub fn apply_mut_scoped(
       if text.as_bytes().get(at.wrapping_sub(1)) == Some(&b'\\') {
         return None;
       }
+      if m.c % 16 == 15 {
+        // a long multi-byte run: positions later on this line are several KiB into the line
+        text.insert_str(at, &"é".repeat(1500));
+        return Some("mut_long_multibyte_line");
+      }
       text.insert_str(at, MB[(m.c as usize) % MB.len()]);
       Some("mut_multibyte")
     }
